@@ -28,3 +28,55 @@ package multicastsetup
 //@ func GetMcNetSKey
 //@   props C18
 //@   ensures key: err == nil && result0 == aes_enc(mcKey, 0x02, mcAddr[3], mcAddr[2], mcAddr[1], mcAddr[0], 0, 0, 0, 0, 0, 0, 0, 0, 0, 0, 0)
+
+// ---------------------------------------------------------------------------
+// C09 / C10: decoders are total and write only their receiver (thin contracts)
+// ---------------------------------------------------------------------------
+//@ func interface CommandPayload.Size
+//@   modifies nothing
+//@   ensures nonneg: result >= 0 && result <= 4611686018427387904
+//@ func interface CommandPayload.UnmarshalBinary
+//@   modifies *self
+//@ func interface CommandPayload.MarshalBinary
+//@   modifies nothing
+//@ func (*PackageVersionAnsPayload).UnmarshalBinary
+//@   props C09 C10
+//@   modifies *p
+//@ func (*McGroupStatusReqPayload).UnmarshalBinary
+//@   props C09 C10
+//@   modifies *p
+//@ func (*McGroupStatusAnsPayload).UnmarshalBinary
+//@   props C09 C10
+//@   modifies *p, p.Items[len(p.Items):cap(p.Items)]
+//@ func (*McGroupSetupReqPayload).UnmarshalBinary
+//@   props C09 C10
+//@   modifies *p
+//@ func (*McGroupSetupAnsPayload).UnmarshalBinary
+//@   props C09 C10
+//@   modifies *p
+//@ func (*McGroupDeleteReqPayload).UnmarshalBinary
+//@   props C09 C10
+//@   modifies *p
+//@ func (*McGroupDeleteAnsPayload).UnmarshalBinary
+//@   props C09 C10
+//@   modifies *p
+//@ func (*McClassCSessionReqPayload).UnmarshalBinary
+//@   props C09 C10
+//@   modifies *p
+//@ func (*McClassCSessionAnsPayload).UnmarshalBinary
+//@   props C09 C10
+//@   modifies *p
+//@ func (*McClassBSessionReqPayload).UnmarshalBinary
+//@   props C09 C10
+//@   modifies *p
+//@ func (*McClassBSessionAnsPayload).UnmarshalBinary
+//@   props C09 C10
+//@   modifies *p
+//@ func (*Command).UnmarshalBinary
+//@   props C09 C10
+//@   modifies *c
+//@ func (Command).Size
+//@   props C09
+//@   modifies nothing
+//@   requires typed-nil: c.Payload != nil ==> as_nonnil(c.Payload)
+//@   ensures positive: result >= 1
